@@ -991,7 +991,7 @@ func run(c *vk.Ctx) {
 	// level leaves the previous level as the claim.
 	sub := 4
 	if c.Thorough() {
-		sub = 8
+		sub = 32 // many short processes: a shard process leaks memory with every execution
 	}
 	maxB := bound
 	if c.Thorough() {
